@@ -53,9 +53,15 @@ def classes_of(s):
     return c
 
 
+LOOKCH = "017xboe.-_+:"
+
+
 def value_of(s):
     A = ATOMS
     sh = s["sh"]
+    if sh == "look":
+        t = "".join(LOOKCH[c - 1] for c in s["cs"])
+        return {t: t, "l": [t]}
     if sh == "str":
         return A[s["a"]]
     if sh == "arr":
@@ -219,12 +225,16 @@ def run(chk):
         real = classes_of(ATOMS[int(num)])
         if model != real:
             raise common.ToolError(f"atom {num} ({ATOMS[int(num)]!r}): Formats.tla says {sorted(model)}, the characters say {sorted(real)}")
-    cases = r.replay
+    r2 = run_tlc("Formats", "MC_Formats_look_4.cfg" if thorough else "MC_Formats_look_3.cfg", workers=8, xmx="6g")
+    chk.add_tlc(r2, "Formats: number / keyword look-alike strings")
+    cases = r.replay + r2.replay
     chk.extra["values"] = len(cases)
     cmds, meta = [], []
     for ci, c in enumerate(cases):
         v = src_of(c["s"])
         for fmt, name, expr, hfmt in WRITERS:
+            if c["dom"][fmt] == "skip":
+                continue
             cmd = {"cmd": "eval", "id": len(cmds), "src": (expr or "V").replace("(V", "(" + v).replace("[V, V]", "[" + v + ", " + v + "]") if expr else v, "manifest": hfmt or "string"}
             cmds.append(cmd)
             meta.append((ci, fmt, name))
@@ -235,7 +245,8 @@ def run(chk):
         dom = c["dom"][fmt]
         chk.extra["judged_" + dom.replace("-", "_")] = chk.extra.get("judged_" + dom.replace("-", "_"), 0) + 1
         chk.count((json.dumps(s, sort_keys=True), name))
-        shape = s["sh"] + ":" + ",".join(f"{k}={ATOMS[v]!r}" for k, v in sorted(s.items()) if k != "sh")
+        shape = ("look:" + repr("".join(LOOKCH[x - 1] for x in s["cs"]))) if s["sh"] == "look" else \
+            s["sh"] + ":" + ",".join(f"{k}={ATOMS[v]!r}" for k, v in sorted(s.items()) if k != "sh")
         key = f"c14:{fmt}:{name}:{shape}"
         desc = {"src": cmd["src"], "manifest": cmd["manifest"], "writer": name}
         if rr["k"] == "crash":
